@@ -419,11 +419,14 @@ pub fn check(c: &Case, rec: &mut Rec) -> Result<(), String> {
     // (c) behaviour: the next instructions, with an interrupt on the way, match the reference
     // machine started from the saved state (catches leaked halted / prefix / EI-pending state)
     let frame_len = machine.frame_len() as u64;
-    let t0 = if c.int_active_at_load { 4 } else { frame_len - 30 };
+    // (a halted machine cannot be told from one about to execute the HALT once it is in a SNA; the two
+    // differ only if an interrupt is accepted before that HALT executes, so INT arrives later here)
+    let int_now = c.int_active_at_load && !c.saved_halted;
+    let t0 = if int_now { 4 } else { frame_len - 30 };
     r.verif_set_frame_clocks(t0 as usize);
     let mut m = RefMachine::new(mm2);
     set_ref(&mut m.cpu, &CpuState { regs: lw.clone(), memptr: 0, q_is_f: false, halted: c.saved_halted, no_int: false });
-    if c.int_active_at_load {
+    if int_now {
         rec.class("int-active-when-the-loaded-machine-starts");
     }
     m.cpu.iff1 = lw.iff2;
